@@ -52,7 +52,8 @@ def serialize_json_safe(obj: Any) -> Any:
     """Return ``obj`` if JSON serializable, else ``safe_repr`` string."""
 
     try:
-        json.dumps(obj, ensure_ascii=False)
+        # Same options as the trace drivers use when they write the record
+        json.dumps(obj, ensure_ascii=False, sort_keys=True)
         return obj
     except Exception:
         return safe_repr(obj)
